@@ -98,14 +98,15 @@ pub fn compute_patch_indices(mesh: &Mesh) -> Vec<Vec<usize>> {
     // queue.  When the working queue is empty, we will have completed one patch.  We will then
     // repeat the process until all faces are accounted for.
 
-    // Compute the edge table
-    let mut edge_table = HashMap::new();
+    // Compute the edge table. It is keyed by the edge without regard to its direction, so that
+    // two faces which share an edge are neighbors whether or not their winding agrees.
+    let mut edge_table: HashMap<(u32, u32), Vec<usize>> = HashMap::new();
     let mut remaining_faces = HashSet::new();
 
     for (i, face) in mesh.faces().iter().enumerate() {
-        edge_table.insert((face[0], face[1]), i);
-        edge_table.insert((face[1], face[2]), i);
-        edge_table.insert((face[2], face[0]), i);
+        edge_table.entry(make_sym(&(face[0], face[1]))).or_default().push(i);
+        edge_table.entry(make_sym(&(face[1], face[2]))).or_default().push(i);
+        edge_table.entry(make_sym(&(face[2], face[0]))).or_default().push(i);
         remaining_faces.insert(i);
     }
 
@@ -129,26 +130,15 @@ pub fn compute_patch_indices(mesh: &Mesh) -> Vec<Vec<usize>> {
         while let Some((v0, v1)) = working_queue.pop() {
             #[cfg(feature = "verif")]
             crate::verif_hooks::tick("patches::compute_patch_indices");
-            let e0 = (v0, v1);
-            let e1 = (v1, v0);
-
-            if let Some(f0) = edge_table.get(&e0) {
-                if remaining_faces.contains(f0) {
-                    patch.push(*f0);
-                    remaining_faces.remove(f0);
-                    working_queue.push((mesh.faces()[*f0][0], mesh.faces()[*f0][1]));
-                    working_queue.push((mesh.faces()[*f0][1], mesh.faces()[*f0][2]));
-                    working_queue.push((mesh.faces()[*f0][2], mesh.faces()[*f0][0]));
-                }
-            }
-
-            if let Some(f1) = edge_table.get(&e1) {
-                if remaining_faces.contains(f1) {
-                    patch.push(*f1);
-                    remaining_faces.remove(f1);
-                    working_queue.push((mesh.faces()[*f1][0], mesh.faces()[*f1][1]));
-                    working_queue.push((mesh.faces()[*f1][1], mesh.faces()[*f1][2]));
-                    working_queue.push((mesh.faces()[*f1][2], mesh.faces()[*f1][0]));
+            if let Some(neighbors) = edge_table.get(&make_sym(&(v0, v1))) {
+                for f in neighbors {
+                    if remaining_faces.contains(f) {
+                        patch.push(*f);
+                        remaining_faces.remove(f);
+                        working_queue.push((mesh.faces()[*f][0], mesh.faces()[*f][1]));
+                        working_queue.push((mesh.faces()[*f][1], mesh.faces()[*f][2]));
+                        working_queue.push((mesh.faces()[*f][2], mesh.faces()[*f][0]));
+                    }
                 }
             }
         }
